@@ -15,16 +15,14 @@ import (
 	"fmt"
 	"os"
 	"runtime/pprof"
-		"strings"
+	"strings"
 	"sync"
-	
+
 	"wa-lang.org/wa/internal/zzverif/mc"
 	"wa-lang.org/wa/internal/zzverif/progs"
 	"wa-lang.org/wa/internal/zzverif/rcmon"
 	"wa-lang.org/wa/internal/zzverif/wrun"
 )
-
-const casesPerProgram = 160
 
 type failure struct {
 	class  string // defect class
@@ -107,6 +105,7 @@ func main() {
 	r := mc.Start("C11")
 	maxLen := mc.Pick(r, 3, 4)
 	maxSeeded := mc.Pick(r, 2, 3)
+	casesPerProgram := mc.Pick(r, 160, 320) // bigger programs amortise the per-program costs (runtime compile, two 64 MiB instances)
 	r.Rule("every history of <= max_len ownership operations over the fixed variable set (21 operations, two initial states), one case function per history with an observation of all reachable data after every operation; each case runs on the real compiled program with instrumented runtime (monitor: live set + mirrored reference counts) without and with 0xA5 poisoning at free, and is compared with Go; distinct = distinct Go outputs")
 	r.Bound("ops", len(progs.OwnOps))
 	r.Bound("max_len_zero_init", maxLen)
